@@ -44,22 +44,11 @@ Definition step_op (op : list tok) : list tok :=
       | _ => [TS "badop"] end
     else if name =? "h1" then
       match args with [TB raw] => summary raw | _ => [TS "badop"] end
-    else if name =? "cuts" then []
-    else if name =? "data" then
+    else if name =? "guard" then
       match args with
-      | TN hasd :: TN d :: evs =>
-        let fix evl (l : list tok) : list ev :=
-            match l with
-            | TN 2 :: t => Trailers :: evl t
-            | TN k :: TN len :: t => Data (Z.to_N len) (Z.eqb k 1) :: evl t
-            | _ => []
-            end in
-        match data_agree (if Z.eqb hasd 1 then Some (Z.to_N d) else None) 0%N (evl evs) with
-        | Open n => [TS "open"; tn_N n]
-        | Complete n => [TS "complete"; tn_N n]
-        | Reset => [TS "reset"]
-        end
+      | TB m :: kv => [TS (if h1_guard m (pairs kv) then "forward" else "refuse")]
       | _ => [TS "badop"] end
+    else if name =? "cuts" then []
     else [TS "badop"]
   | _ => [TS "badop"]
   end.
